@@ -141,6 +141,13 @@ def gen(tier, rng):
             spec['vec2d'] = True
         if i % 3 == 1:     # probe coordinates stored as integers
             spec['dtypes'] = dict(spec.get('dtypes') or {}, channel_positions=['int32', 'uint32', 'int64', 'uint16'][(i // 3) % 4])
+        if i % 50 == 7 or (not q and i % 500 == 8):
+            # large cluster ids (beyond 255; in the thorough tier beyond 32767): the exported id tables are uint16
+            big = 300 if i % 50 == 7 else 33000
+            sc_ = list(spec.get('spike_clusters') or spec['spike_templates'])
+            sc_[0] = big
+            sc_[-1] = big - 1
+            spec['spike_clusters'] = sc_
         # labels incl. ones that occur inside ALF file names or look like extensions
         label = ['', 'probe00', '', 'a', 'raw', '', 'amps', 'npy', 'spikes', 'x.y', 'clusters'][i % 11]
         yield dict(p=PID, spec=spec, factor=[1, 2.5][i % 2], label=label, temp_wh=(i % 4 == 0), rs=i,
